@@ -80,8 +80,30 @@ func validateMinerPayouts(s State, b types.Block) error {
 	return nil
 }
 
+// validateV2PoliciesSet checks that every input of txn carries a spend policy.
+// An unset policy cannot be produced by the binary decoder, but it can by JSON
+// (absent "policy" field), and it can be neither encoded nor hashed.
+func validateV2PoliciesSet(txn types.V2Transaction) error {
+	for i, sci := range txn.SiacoinInputs {
+		if sci.SatisfiedPolicy.Policy.Type == nil {
+			return fmt.Errorf("siacoin input %v has no spend policy", i)
+		}
+	}
+	for i, sfi := range txn.SiafundInputs {
+		if sfi.SatisfiedPolicy.Policy.Type == nil {
+			return fmt.Errorf("siafund input %v has no spend policy", i)
+		}
+	}
+	return nil
+}
+
 // ValidateOrphan validates b in the context of s.
 func ValidateOrphan(s State, b types.Block) error {
+	for i, txn := range b.V2Transactions() {
+		if err := validateV2PoliciesSet(txn); err != nil {
+			return fmt.Errorf("v2 transaction %v is invalid: %w", i, err)
+		}
+	}
 	var weight uint64
 	for _, txn := range b.Transactions {
 		weight += s.TransactionWeight(txn)
@@ -942,6 +964,8 @@ func validateFoundationUpdate(ms *MidState, txn types.V2Transaction) error {
 func ValidateV2Transaction(ms *MidState, txn types.V2Transaction) error {
 	if ms.base.childHeight() < ms.base.Network.HardforkV2.AllowHeight {
 		return errors.New("v2 transactions are not allowed until v2 hardfork begins")
+	} else if err := validateV2PoliciesSet(txn); err != nil {
+		return err
 	} else if err := validateV2CurrencyOverflow(ms, txn); err != nil {
 		return err
 	} else if weight := ms.base.V2TransactionWeight(txn); weight == 0 {
